@@ -4,6 +4,7 @@
 //
 // Line protocol (areas fx, fxwrap):   <f64|f128> <k of Dk> <op> <args…>     raw values in decimal
 // Line protocol (area fxfloat):       <f64|f128> <k> <fromf64|fromf32|asf64|asf32> <hex bits | raw>   (oracle: ok/FAIL)
+// Line protocol (area fxfloatm):      the same lines, answered with the raw value / the float's bits (floatm.go)
 package main
 
 import (
@@ -25,6 +26,8 @@ type cfg struct {
 	run128 func(op string, a []string) string
 	flt64  func(op string, arg string) string
 	flt128 func(op string, arg string) string
+	fm64   func(op string, arg string) string
+	fm128  func(op string, arg string) string
 }
 
 var cfgs = map[string]*cfg{}
@@ -34,6 +37,7 @@ func register[T fixed.Dx](name string) {
 	cfgs[name] = &cfg{
 		places: t.Places(), mult: t.Multiplier(),
 		run64: run64[T], run128: run128[T], flt64: float64Oracle[T], flt128: float128Oracle[T],
+		fm64: float64Model[T], fm128: float128Model[T],
 	}
 }
 
@@ -405,5 +409,6 @@ func (floatArea) Run(line string) string {
 }
 
 func main() {
-	hx.Main(map[string]hx.Area{"fx": area{wrap: false}, "fxwrap": area{wrap: true}, "fxfloat": floatArea{}})
+	hx.Main(map[string]hx.Area{"fx": area{wrap: false}, "fxwrap": area{wrap: true}, "fxfloat": floatArea{},
+		"fxfloatm": floatModelArea{}})
 }
